@@ -306,13 +306,35 @@ def check_interp_options(ctx, rule, module_names, floor):
                 if v is None and len(node.args) >= 8:
                     v = node.args[7]
                 ok = v is None or (isinstance(v, _ast.Constant) and v.value is False)
-                fn = next((f.qualname for f in ctx.P.functions.values() if f.module is m and f.node.lineno <= node.lineno <= (f.node.end_lineno or 0) and not f.nested), mn)
+                fi_ = next((f for f in ctx.P.functions.values() if f.module is m and f.node.lineno <= node.lineno <= (f.node.end_lineno or 0) and not f.nested), None)
+                fn = fi_.qualname if fi_ else mn
+                if not ok and isinstance(v, _ast.Name) and fi_ is not None:
+                    # an option of the enclosing function that defaults to False and is forwarded unchanged
+                    # (new optional parameters are judged at their default, DESIGN 9.3)
+                    ok = _param_defaults_to(fi_.node, v.id, False)
                 ctx.check(
                     ok, rule, f"{fn}:interp1d#{sum(1 for _ in [0])}@{_ast.unparse(node.args[1])[:40] if len(node.args) > 1 else ''}", f"{m.relpath}:{node.lineno}",
                     "the interpolator does not assume its abscissa is already sorted (scipy sorts; a descending or unsorted table is handled)",
                     signature="assume_sorted", nontrivial=False,
                 )
     ctx.floor(rule, n, floor, "interp1d call sites")
+
+
+def _param_defaults_to(fnode, name, value):
+    """True when `name` is a parameter of fnode whose default is the constant `value` and which the body never re-binds."""
+    import ast as _ast
+
+    a = fnode.args
+    pos = a.posonlyargs + a.args
+    dflt = dict(zip([x.arg for x in pos[len(pos) - len(a.defaults):]], a.defaults))
+    dflt.update({x.arg: d for x, d in zip(a.kwonlyargs, a.kw_defaults) if d is not None})
+    d = dflt.get(name)
+    if not (isinstance(d, _ast.Constant) and d.value is value):
+        return False
+    for n in _ast.walk(fnode):
+        if isinstance(n, _ast.Name) and n.id == name and isinstance(n.ctx, (_ast.Store, _ast.Del)):
+            return False
+    return True
 
 
 def handrolled_trapezoid(it, value_nf, roots):
@@ -361,18 +383,30 @@ def handwritten_quadrature(ctx, rule, it, value_nf, roots, construct, where, xna
         ctx.bad(rule, construct, where, "the result is the cumulative trapezoid-rule integral of the ordinate over the independent variable", signature="hand-written quadrature: " + str(ynf)[:120])
         return None
     ctx.ok(rule, construct, where, "hand-written cumulative trapezoid: panels 1/2 (y[j+1] + y[j]) (x[j+1] - x[j]) over the independent variable", ordinate=nf.show(ynf, 300), abscissa=nf.show(xroot, 100))
-    # zero start: the cumulative sum appears as the tail of a concatenation whose head is a zero
+    ctx.check(zero_start(it, value_nf), rule, construct + ":initial", where, "the running integral is prefixed with a zero (result starts at zero and has the length of the grid)", signature="initial", value=nf.show(value_nf, 300))
+    return ynf
+
+
+def _one_zero(it, p):
+    """a scalar zero, or a one-element sequence holding a zero ([0.0], (0,))"""
+    if not p:
+        return True
+    a = it.single_atom(p)
+    return a is not None and a[0] == "fn" and a[1] in ("tuple", "list") and len(a[2]) == 1 and not nf.unkey(a[2][0])
+
+
+def zero_start(it, value_nf):
+    """the cumulative sum appears as the tail of a concatenation whose head is a zero"""
     zero_ok = False
     for a in nf.atoms(value_nf):
         if a[0] == "fn" and a[1].split("{")[0] in ("numpy.concatenate", "numpy.hstack", "numpy.append", "numpy.r_") and a[2]:
             first = it.single_atom(nf.unkey(a[2][0]))
             parts = first[2] if first is not None and first[0] == "fn" and first[1] == "tuple" else a[2]
-            if len(parts) == 2 and not nf.unkey(parts[0]) and any(x[0] == "fn" and x[1] in ("cumsum", "numpy.cumsum") for x in nf.atoms(nf.unkey(parts[1]))):
+            if len(parts) == 2 and _one_zero(it, nf.unkey(parts[0])) and any(x[0] == "fn" and x[1] in ("cumsum", "numpy.cumsum") for x in nf.atoms(nf.unkey(parts[1]))):
                 zero_ok = True
         if a[0] == "fn" and a[1].split("{")[0] == "numpy.insert" and len(a[2]) >= 3 and not nf.unkey(a[2][1]) and not nf.unkey(a[2][2]):
             zero_ok = True
-    ctx.check(zero_ok, rule, construct + ":initial", where, "the running integral is prefixed with a zero (result starts at zero and has the length of the grid)", signature="initial", value=nf.show(value_nf, 300))
-    return ynf
+    return zero_ok
 
 
 def check_tolerances(ctx, rule, construct, where, args, limits, what):
